@@ -95,8 +95,24 @@ int main(int argc, char** argv) {
                 if (t == "pip") cons.push_back(Constraint::PointInPlane(b1, axisOf(k["n"]), k["h"].dbl(), mb[(int)k["b2"].num()], vec(k["st"])));
                 else if (t == "cang") cons.push_back(Constraint::ConstantAngle(b1, axisOf(k["a1"]), mb[(int)k["b2"].num()], axisOf(k["a2"]), std::acos(k["cosn"].dbl() / std::pow(5.0, k["cose"].dbl()))));
                 else if (t == "cspeed") cons.push_back(Constraint::ConstantSpeed(b1, MobilizerUIndex((int)k["k"].num() - 1), k["s"].dbl()));
+                else if (t == "rod") cons.push_back(Constraint::Rod(b1, vec(k["st"]), mb[(int)k["b2"].num()], vec(k["st2"]), k["d"].dbl()));
                 else throw std::runtime_error("unknown constraint type " + t);
                 cons.back().setDisabledByDefault(true);
+            }
+            // force elements (spec: felems), all disabled by default so that the other phases see none of them
+            std::vector<Force> fel;
+            for (auto& e : c["felems"].arr()) {
+                const string t = e["type"].str();
+                if (t == "gravity") fel.push_back(Force::Gravity(forces, matter, vec(e["g"])));
+                else if (t == "ugravity") fel.push_back(Force::UniformGravity(forces, matter, vec(e["g"]), 0));
+                else if (t == "cforce") fel.push_back(Force::ConstantForce(forces, mb[(int)e["b"].num()], vec(e["st"]), vec(e["f"])));
+                else if (t == "ctorque") fel.push_back(Force::ConstantTorque(forces, mb[(int)e["b"].num()], vec(e["f"])));
+                else if (t == "mcf") fel.push_back(Force::MobilityConstantForce(forces, mb[(int)e["b"].num()], MobilizerUIndex((int)e["k"].num() - 1), e["c"].dbl()));
+                else if (t == "mls") fel.push_back(Force::MobilityLinearSpring(forces, mb[(int)e["b"].num()], MobilizerQIndex((int)e["k"].num() - 1), e["c"].dbl(), e["q0"].dbl()));
+                else if (t == "mld") fel.push_back(Force::MobilityLinearDamper(forces, mb[(int)e["b"].num()], MobilizerUIndex((int)e["k"].num() - 1), e["c"].dbl()));
+                else if (t == "gdamper") fel.push_back(Force::GlobalDamper(forces, matter, e["c"].dbl()));
+                else throw std::runtime_error("unknown force element " + t);
+                fel.back().setDisabledByDefault(true);
             }
             system.realizeTopology();
             State s = system.getDefaultState();
@@ -322,6 +338,40 @@ int main(int argc, char** argv) {
                 }
                 js << "]";
             }
+            if (!fel.empty()) {   // force elements: first parameter set, then the second one applied to the SAME State
+                State sf = system.getDefaultState();
+                if (c.has("euler") && c["euler"].num()) matter.setUseEulerAngles(sf, true);
+                system.realizeModel(sf); setCoords(sf, c["q"], c["u"]);
+                for (int pass = 0; pass < 2; ++pass) {
+                    const mj::Value& FE = pass ? c["felems2"] : c["felems"];
+                    for (size_t k = 0; k < fel.size(); ++k) {
+                        const mj::Value& e = FE[(int)k]; const string t = e["type"].str();
+                        if (e["on"].num()) fel[k].enable(sf); else fel[k].disable(sf);
+                        if (pass) {   // runtime parameter changes
+                            if (t == "gravity") { const Force::Gravity& g = Force::Gravity::downcast(fel[k]); g.setGravityVector(sf, vec(e["g"]));
+                                                  for (int i = 1; i <= N; ++i) g.setBodyIsExcluded(sf, mb[i].getMobilizedBodyIndex(), e["ex"][i - 1].num() != 0); }
+                            else if (t == "mcf") Force::MobilityConstantForce::downcast(fel[k]).setForce(sf, e["c"].dbl());
+                            else if (t == "mls") { Force::MobilityLinearSpring::downcast(fel[k]).setStiffness(sf, e["c"].dbl()); Force::MobilityLinearSpring::downcast(fel[k]).setQZero(sf, e["q0"].dbl()); }
+                            else if (t == "mld") Force::MobilityLinearDamper::downcast(fel[k]).setDamping(sf, e["c"].dbl());
+                        } else if (t == "gravity") { const Force::Gravity& g = Force::Gravity::downcast(fel[k]);
+                            for (int i = 1; i <= N; ++i) g.setBodyIsExcluded(sf, mb[i].getMobilizedBodyIndex(), e["ex"][i - 1].num() != 0); }
+                    }
+                    system.realize(sf, Stage::Dynamics);
+                    const Vector_<SpatialVec>& BF = system.getRigidBodyForces(sf, Stage::Dynamics); const Vector& MF = system.getMobilityForces(sf, Stage::Dynamics);
+                    js << (pass ? ",\"forces2\":{" : ",\"forces\":{") << "\"body\":[";
+                    for (int i = 1; i <= N; ++i) { const SpatialVec& W = BF[mb[i].getMobilizedBodyIndex()]; js << (i > 1 ? "," : "") << "{\"t\":" << jv(W[0]) << ",\"f\":" << jv(W[1]) << "}"; }
+                    js << "],\"mob\":["; for (int j = 0; j < nu; ++j) js << (j ? "," : "") << num(MF[j]);
+                    js << "],\"pe2\":" << num(2 * system.calcPotentialEnergy(sf)) << ",\"power\":[";
+                    for (size_t k = 0; k < fel.size(); ++k) {
+                        double pw = 0;
+                        if (FE[(int)k]["on"].num()) { Vector_<SpatialVec> bf; Vector_<Vec3> pf; Vector mf; fel[k].calcForceContribution(sf, bf, pf, mf);
+                            for (int i = 1; i <= N; ++i) { const SpatialVec& V = mb[i].getBodyVelocity(sf); const SpatialVec& W = bf[mb[i].getMobilizedBodyIndex()]; pw += ~W[0] * V[0] + ~W[1] * V[1]; }
+                            for (int j = 0; j < nu; ++j) pw += mf[j] * sf.getU()[j]; }
+                        js << (k ? "," : "") << num(pw);
+                    }
+                    js << "]}";
+                }
+            }
             if (!cons.empty()) {   // constraints: errors, G and its operators, constraint forces, constrained forward dynamics
                 State sc = system.getDefaultState();
                 if (c.has("euler") && c["euler"].num()) matter.setUseEulerAngles(sc, true);
@@ -356,6 +406,22 @@ int main(int argc, char** argv) {
                 js << ",\"errG\":" << num(errG) << ",\"errGt\":" << num(errGt) << ",\"errCF\":" << num(errCF) << ",\"cbias\":[";
                 for (int r = 0; r < m; ++r) js << (r ? "," : "") << num(bias[r]);
                 js << "]";
+                {   // the SAME State after a u-only change (q and time untouched): velocity errors and acceleration bias again
+                    State su = sc;      // (a copy is used for the fresh reference below; the re-used object is sc2)
+                    State& sc2 = sc;
+                    system.realize(sc2, Stage::Acceleration);                    // fill every cache at the first speeds
+                    for (int i = 0; i < N; ++i) for (int k = 0; k < mb[i + 1].getNumU(sc2); ++k) mb[i + 1].setOneU(sc2, k, c["u2"][i][k].dbl());
+                    system.realize(sc2, Stage::Acceleration);
+                    Vector bias2; matter.calcBiasForAccelerationConstraints(sc2, bias2);
+                    js << ",\"cbiasU2\":["; for (int r = 0; r < m; ++r) js << (r ? "," : "") << num(bias2[r]);
+                    js << "],\"verrU2\":[";
+                    bool first = true;
+                    for (size_t k = 0; k < cons.size(); ++k) { if (!c["cons"][(int)k]["on"].num()) continue; js << (first ? "" : ",") << num(cons[k].getVelocityErrorsAsVector(sc2)[0]); first = false; }
+                    js << "]";
+                    // back to the first speeds for the dynamics below
+                    for (int i = 0; i < N; ++i) for (int k = 0; k < mb[i + 1].getNumU(sc2); ++k) mb[i + 1].setOneU(sc2, k, c["u"][i][k].dbl());
+                    system.realize(sc2, Stage::Velocity);
+                }
                 if (c["dyn"].num()) {   // constrained forward dynamics with the applied body forces F and the mobility forces tau
                     const int nb = matter.getNumBodies();
                     Vector_<SpatialVec> bodyF(nb, SpatialVec(Vec3(0), Vec3(0)));
